@@ -23,6 +23,10 @@ theorem split_agrees : splitOp = ">" ∧ splitBound = runMax ∧ splitLen = runM
 theorem psizeRejects_iff (off : Int) (n : Nat) : psizeRejects off n = true ↔ off > (n : Int) := by
   simp [psizeRejects]
 
+/-- the source has no end-pointer test in the walk of `find_line` (bridging lemma for `Gen.C18.scanBounded`): the scan
+    depends on the runs only, never on the stored table size `file_info[0]` -/
+theorem scan_unbounded : scanBounded = false := rfl
+
 theorem findRun_cons (r : Run) (rest : List Run) (off : Int) :
     findRun (r :: rest) off = if off > (r.len : Int) then findRun rest (off - r.len) else some r := by
   simp [findRun, scanContinues]
